@@ -489,6 +489,43 @@ fn check_type_relation<T: TypeLookup>(
             })
         }
 
+        // Partial vs concrete tuple: never assignable (the partial also admits other tuples), but
+        // the two overlap when the tuple meets the partial's constraints.
+        (
+            Type::Partial {
+                name: partial_name,
+                fields: partial_fields,
+            },
+            Type::Tuple(concrete_id),
+        ) if matches!(mode, UnionMode::Any) => {
+            let Some(concrete_info) = lookup.lookup_tuple(*concrete_id) else {
+                return false;
+            };
+
+            if let Some(pname) = partial_name
+                && concrete_info.name.as_ref() != Some(pname)
+            {
+                return false;
+            }
+
+            partial_fields.iter().all(|(partial_fname, partial_ftype)| {
+                concrete_info
+                    .fields
+                    .iter()
+                    .any(|(concrete_fname, concrete_ftype)| {
+                        concrete_fname.as_ref() == Some(partial_fname)
+                            && check_type_relation(
+                                *partial_ftype,
+                                *concrete_ftype,
+                                lookup,
+                                mode,
+                                assumptions,
+                                type_stack,
+                            )
+                    })
+            })
+        }
+
         // Process types
         (
             Type::Process {
